@@ -1,5 +1,6 @@
 import RTA.Lemmas.MonoAnalyses
 import RTA.Lemmas.MonoRos
+import RTA.Lemmas.MonoChain
 /-! # C17 — response-time bounds are monotone in workload and supply
 
 Order on results: `Res.le`: `ok a ≤ ok b` iff `a ≤ b`; every `ok`/`div` is below a divergence
@@ -122,6 +123,19 @@ theorem ros_polling_point_monotone_partial (s s' : Supply) (hs : s.WF) (hs' : s'
     Res.leD (rosPollingPoint s (.rbf a (.scalar C)) interf limit)
       (rosPollingPoint s' (.rbf a (.scalar C)) interf' limit) :=
   pollingPoint_mono s s' hs hs' hsup a C hwf hex hC hpos interf interf' hwfi hexi hwfi' hexi' h limit hl
+
+/-- processing chain: a longer chain prefix, more demand of the other chains, a weaker supply
+(partial as above: the chain's own arrival curve and the WCET of its last callback fixed) -/
+theorem ros_chain_monotone_partial (s s' : Supply) (hs : s.WF) (hs' : s'.WF) (hsup : s'.Weaker s)
+    (a : Arr) (C P P' : Nat) (hwf : a.WF) (hex : a.Exact) (hC : 1 ≤ C) (hP : 1 ≤ P) (hPP : P ≤ P')
+    (hpos : 0 < a.N 1)
+    (others others' : RB) (hwfo : others.ArrWF) (hexo : others.Exact)
+    (hwfo' : others'.ArrWF) (hexo' : others'.Exact)
+    (h : ∀ d, others.need d ≤ others'.need d) (limit : Nat) (hl : 1 ≤ limit) :
+    Res.leD
+      (rosChain s (.rbf a (.scalar C)) (.rbf a (.scalar P)) (.rbf a (.scalar (C + P))) others limit)
+      (rosChain s' (.rbf a (.scalar C)) (.rbf a (.scalar P')) (.rbf a (.scalar (C + P'))) others' limit) :=
+  chain_mono s s' hs hs' hsup a C P P' hwf hex hC hP hPP hpos others others' hwfo hexo hwfo' hexo' h limit hl
 
 /-- rr subchain analysis: a pointwise harder workload (every callback: same kind, no smaller
 assumed response-time bound, no fewer arrivals, no smaller costs; the end of the chain with a
